@@ -793,16 +793,21 @@ class FuseIntNullsSpec(SimpleOp):
         return f"FuseIntNulls<{inst['T']}>"
 
     def shapes(self, tier, inst):
-        return [0, 2] if tier == "quick" else [0, 1, 2, 3, 9]
+        # (rows of this batch, rows already in UnfuseIntNulls' output from earlier batches of the same run)
+        return [(0, 0), (2, 0), (2, 1)] if tier == "quick" else [(0, 0), (1, 0), (2, 0), (3, 0), (9, 0), (2, 1), (1, 8), (2, 9), (3, 3)]
 
     def sym_inputs(self, inst, shape):
-        n = shape
+        n, prev = shape
         T = inst["T"]
         inp = {"data": [sym(T, f"d{i}") if i < 3 else I(T, i) for i in range(n)], "present": [sym("u8", f"p{i}") for i in range(nb(n))],
-               "min": [sym("i64", "min")], "max": [sym("i64", "max")]}
+               "min": [sym("i64", "min")], "max": [sym("i64", "max")],
+               "pdata": [sym(T, f"q{i}") if i < 2 else I(T, 0) for i in range(prev)], "ppres": [sym("u8", f"pp{i}") for i in range(nb(prev))]}
         mn, mx = inp["min"][0].v, inp["max"][0].v
         w = INT_W[T]
         pre = [mn <= 0, mn <= mx]
+        if prev % 8:
+            # bits past the rows written so far are still zero (the bitmap is only ever grown with resize(.., 0) and set per row)
+            pre.append(z3.LShR(inp["ppres"][-1].v, prev % 8) == 0)
         if T == "i64":
             # the planner computes -min + 1 and max - min + 1 in i64: only ranges for which that arithmetic is defined
             pre += [mn > -(1 << 62), mx < (1 << 62)]
@@ -828,8 +833,8 @@ class FuseIntNullsSpec(SimpleOp):
         b = Buffers()
         b.nullable(0, inp["data"], inst["T"], inp["present"])
         b.vec(1, [], inst["T"])
-        b.vec(2, [], inst["T"])
-        b.vec(3, [], "u8")
+        b.vec(2, list(inp["pdata"]), inst["T"])
+        b.vec(3, list(inp["ppres"]), "u8")
         return b
 
     def explore(self, ctx, ex, fn, inst, shape, inp, pre):
@@ -861,29 +866,34 @@ class FuseIntNullsSpec(SimpleOp):
 
     def post(self, inst, shape, inp, value, state=None):
         v = self.view(inst, shape, value, state) if state is not None else value
-        n = shape
+        n, prev = shape
         T = inst["T"]
-        conds = [("never fails", B(not v["err"])), ("one fused key and one decoded key per row", B(len(v["fused"]) == n and len(v["data"]) == n and len(v["present"]) >= nb(n)))]
+        conds = [("never fails", B(not v["err"])), ("one fused key and one decoded key per row", B(len(v["fused"]) == n and len(v["data"]) == prev + n and len(v["present"]) >= nb(prev + n)))]
         if not conds[1][1].v:
             return conds
+        for i in range(prev):
+            conds.append((f"earlier batch row {i}: decoded key and NULL flag untouched by a later batch",
+                          band(binop("Eq", v["data"][i], inp["pdata"][i]), binop("Eq", pbit(v["present"], i), pbit(inp["ppres"], i)))))
         for i in range(n):
             p = pbit(inp["present"], i)
             conds.append((f"row {i}: NULL is fused to key 0, a value never is", binop("Eq", binop("Eq", v["fused"][i], I(T, 0)), bnot(p))))
-            conds.append((f"row {i}: NULL-ness survives the grouping key round trip", binop("Eq", pbit(v["present"], i), p)))
-            conds.append((f"row {i}: a present value survives the grouping key round trip", implies(p, binop("Eq", v["data"][i], inp["data"][i]))))
+            conds.append((f"row {i}: NULL-ness survives the grouping key round trip (output position {'prev+' if prev else ''}{i})", binop("Eq", pbit(v["present"], prev + i), p)))
+            conds.append((f"row {i}: a present value survives the grouping key round trip", implies(p, binop("Eq", v["data"][prev + i], inp["data"][i]))))
             for j in range(i):
                 pj = pbit(inp["present"], j)
                 conds.append((f"rows {j},{i}: distinct values get distinct fused keys", implies(band(p, pj, binop("Ne", inp["data"][i], inp["data"][j])), binop("Ne", v["fused"][i], v["fused"][j]))))
         return conds
 
     def random_inputs(self, rng, inst, shape):
-        n = shape
+        n, prev = shape
         T = inst["T"]
         if T == "i64":
             mn = rng.choice([0, -5, -1000]); mx = mn + rng.choice([0, 3, 1000])
         else:
             mn = 0; mx = rng.randint(0, (1 << INT_W[T]) - 2)   # max + offset <= T::MAX
-        return {"data": [I(T, rng.randint(mn, mx)) for _ in range(n)], "present": [I("u8", rng.randint(0, 255)) for _ in range(nb(n))], "min": [I("i64", mn)], "max": [I("i64", mx)]}
+        return {"data": [I(T, rng.randint(mn, mx)) for _ in range(n)], "present": [I("u8", rng.randint(0, 255)) for _ in range(nb(n))], "min": [I("i64", mn)], "max": [I("i64", mx)],
+                "pdata": [I(T, rng.randint(0, 5)) for _ in range(prev)],
+                "ppres": [I("u8", rng.randint(0, 255) & ((1 << (prev - 8 * i)) - 1 if prev - 8 * i < 8 else 255)) for i in range(nb(prev))]}
 
     def native(self, inst, shape, inp):
         if inp is None:
@@ -891,7 +901,7 @@ class FuseIntNullsSpec(SimpleOp):
         off = (-inp["min"][0].v + 1) & ((1 << INT_W[inst["T"]]) - 1)
         if inst["T"] == "i64" and off >= (1 << 63):
             off -= 1 << 64
-        return (inst["nat"], [fmt_ints(inp["data"]), fmt_ints(inp["present"]), str(off)])
+        return (inst["nat"], [fmt_ints(inp["data"]), fmt_ints(inp["present"]), str(off), fmt_ints(inp["pdata"]), fmt_ints(inp["ppres"])])
 
     def parse_native(self, inst, shape, toks):
         T = inst["T"]
